@@ -28,7 +28,7 @@ def cname(path):
     return "::".join(parts[-2:])
 
 
-def N(V, clone=False):
+def N(V, clone=False, keep=False):
     """Structural normal form: call ids removed, overflow-checked arithmetic and integer /
     pointer casts made transparent, identity conversions removed, snapshots of references
     replaced by the referenced value."""
@@ -39,7 +39,7 @@ def N(V, clone=False):
         return ("const", V[1])
     if k == "call":
         path = V[1]
-        args = tuple(N(a, clone) for a in V[2])
+        args = tuple(N(a, clone, keep) for a in V[2])
         cn = cname(path)
         if len(args) == 1 and (path in IDENTITY_CALLS[:-1] or cn in ("Into::into", "From::from") or cn.endswith("Into<U>>::into")):
             return args[0]
@@ -49,23 +49,23 @@ def N(V, clone=False):
             return args[0][2][0]
         return ("call", path, args)
     if k == "refv":
-        return N(V[1], clone)
+        return N(V[1], clone, keep)
     if k == "ref":
-        return ("ref", NL(V[1], clone))
+        return ("ref", NL(V[1], clone, keep))
     if k == "load":
-        return ("load", NL(V[1], clone), V[2])
+        return ("load", NL(V[1], clone, keep), V[2])
     if k == "bin":
         op = V[1]
         op = UNCHECKED.get(op, op)
-        return ("bin", op, N(V[2], clone), N(V[3], clone))
+        return ("bin", op, N(V[2], clone, keep), N(V[3], clone, keep))
     if k == "un":
-        return ("un", V[1], N(V[2], clone))
+        return ("un", V[1], N(V[2], clone, keep))
     if k == "cast":
-        if V[1] in ("IntToInt", "PtrToPtr") or V[1].startswith("PointerCoercion"):
-            return N(V[2], clone)
-        return ("cast", V[1], N(V[2], clone), V[3])
+        if (V[1] in ("IntToInt", "PtrToPtr") or V[1].startswith("PointerCoercion")) and not (keep and V[1] == "IntToInt"):
+            return N(V[2], clone, keep)
+        return ("cast", V[1], N(V[2], clone, keep), V[3])
     if k == "vfield":
-        inner = N(V[1], clone)
+        inner = N(V[1], clone, keep)
         if inner[0] == "bin" and inner[1] in OVF and V[2] == "0":
             return ("bin", OVF[inner[1]], inner[2], inner[3])
         if inner[0] == "agg":
@@ -74,26 +74,26 @@ def N(V, clone=False):
                     return fv
         return ("vfield", inner, V[2])
     if k == "vdown":
-        return ("vdown", N(V[1], clone), V[2])
+        return ("vdown", N(V[1], clone, keep), V[2])
     if k == "agg":
-        return ("agg", V[1], V[2], V[3], tuple((f, N(v, clone)) for f, v in V[4])) + tuple(V[5:])
+        return ("agg", V[1], V[2], V[3], tuple((f, N(v, clone, keep)) for f, v in V[4])) + tuple(V[5:])
     if k == "discr":
-        return ("discr", N(V[1], clone))
+        return ("discr", N(V[1], clone, keep))
     if k == "loopvar":
-        return ("loopvar", V[1], V[2], N(V[3], clone) if V[3] else None)
+        return ("loopvar", V[1], V[2], N(V[3], clone, keep) if V[3] else None)
     return V
 
 
-def NL(L, clone=False):
+def NL(L, clone=False, keep=False):
     k = L[0]
     if k == "deref":
-        return ("deref", N(L[1], clone))
+        return ("deref", N(L[1], clone, keep))
     if k in ("field", "downcast"):
-        return (k, NL(L[1], clone), L[2])
+        return (k, NL(L[1], clone, keep), L[2])
     if k == "index":
-        return ("index", NL(L[1], clone), N(L[2], clone))
+        return ("index", NL(L[1], clone, keep), N(L[2], clone, keep))
     if k == "cindex":
-        return ("cindex", NL(L[1], clone), L[2], L[3])
+        return ("cindex", NL(L[1], clone, keep), L[2], L[3])
     return L
 
 
@@ -193,11 +193,11 @@ def loc_root_field(L, arg=1):
 # ----------------------------------------------------------------------------------
 # atoms / conditions
 # ----------------------------------------------------------------------------------
-def atom(cond):
+def atom(cond, keep=False):
     """Normalise a path condition entry to (atom_value, truth) where the atom is an
     un-negated, canonically ordered comparison where possible."""
     V, vals, kind = cond[0], cond[1], cond[2]
-    V = N(V)
+    V = N(V, False, keep)
     # truth of V as a boolean / discriminant test
     if vals and vals[0] == "not":
         excl = vals[1:]
